@@ -517,6 +517,30 @@ func plantRPCSharedRequestAcrossServices(e *Editor, ws *Workspace) (*Plant, bool
 		Sites: []string{p.a.m.ID, p.b.m.ID}, Also: []string{"RPC_RESPONSE_STANDARD_NAME"}}, true
 }
 
+// plantRPCEmpty makes an RPC take or return google.protobuf.Empty (non-standard name unless the rpc_allow_google_protobuf_empty_* option is set).
+func plantRPCEmpty(e *Editor, ws *Workspace) (*Plant, bool) {
+	sites := rpcSites(ws)
+	if len(sites) == 0 {
+		return nil, false
+	}
+	x := sites[e.pick("site", len(sites))]
+	has := false
+	for _, i := range x.f.Imports {
+		if i.Path == "google/protobuf/empty.proto" {
+			has = true
+		}
+	}
+	if !has {
+		x.f.Imports = append(x.f.Imports, Import{Path: "google/protobuf/empty.proto"})
+	}
+	if e.pick("which", 2) == 0 {
+		x.m.Input = ".google.protobuf.Empty"
+		return &Plant{Op: "rpc-empty-request", Rule: "RPC_REQUEST_STANDARD_NAME", Desc: x.s.Name + "." + x.m.Name + " takes google.protobuf.Empty", Sites: []string{x.m.ID}}, true
+	}
+	x.m.Output = ".google.protobuf.Empty"
+	return &Plant{Op: "rpc-empty-response", Rule: "RPC_RESPONSE_STANDARD_NAME", Desc: x.s.Name + "." + x.m.Name + " returns google.protobuf.Empty", Sites: []string{x.m.ID}}, true
+}
+
 func plantRPCRequestName(e *Editor, ws *Workspace) (*Plant, bool) {
 	sites := rpcSites(ws)
 	if len(sites) == 0 {
@@ -1018,6 +1042,7 @@ var PlantOps = []PlantOp{
 	{"rpc-streaming", plantStreaming},
 	{"rpc-same-request-response", plantRPCSameReqResp},
 	{"rpc-nonstandard-name", plantRPCRequestName},
+	{"rpc-empty", plantRPCEmpty},
 	{"rpc-shared-request-across-services", plantRPCSharedRequestAcrossServices},
 	{"comment-missing", plantCommentMissing},
 	{"import-unused", plantImportUnused},
